@@ -9,6 +9,7 @@ import (
 	"fmt"
 	"runtime"
 	"sync"
+	"sync/atomic"
 	"testing"
 	"time"
 
@@ -406,5 +407,102 @@ func TestVerifDriverReg(t *testing.T) {
 			rows = append(rows, []int64{int64(c.G), ndo, int64(len(distinct)), ndo - total, pb, pd, forced})
 		}
 		return map[string]any{"rows": rows}
+	})
+}
+
+// ---------------------------------------------------------------- concurrent draws
+
+// verifGateSource: every draw is 0 (coin 0: below any positive drop ratio); the FIRST draw holds -- inside
+// Proba.TrueOnProba, i.e. with Proba's lock held -- until the driver opens the gate.
+type verifGateSource struct {
+	first   int32
+	entered chan struct{}
+	gate    chan struct{}
+}
+
+func (s *verifGateSource) Int63() int64 {
+	if atomic.CompareAndSwapInt32(&s.first, 0, 1) {
+		close(s.entered)
+		<-s.gate
+	}
+	return 0
+}
+func (s *verifGateSource) Seed(int64) {}
+
+// verifInTrueOnProba counts goroutines that are inside mathx.(*Proba).TrueOnProba (drawing or waiting for its lock).
+func verifInTrueOnProba() int {
+	buf := make([]byte, 1<<21)
+	buf = buf[:runtime.Stack(buf, true)]
+	n := 0
+	for _, g := range bytes.Split(buf, []byte("\n\n")) {
+		if bytes.Contains(g, []byte("mathx.(*Proba).TrueOnProba")) {
+			n++
+		}
+	}
+	return n
+}
+
+// TestVerifDriverConc: {"g": goroutines, "fails": failures recorded first}: on a breaker with `fails` failures in its
+// window, g goroutines call Allow / Do at the same moment while the first draw is held inside TrueOnProba until all the
+// others are inside it too; every draw is 0, so whenever the drop ratio is positive every one of them must be rejected.
+// Reports how many were let in and how many goroutines were seen inside TrueOnProba together.
+func TestVerifDriverConc(t *testing.T) {
+	logx.Disable()
+	round := 0
+	verifdrv.Run(t, func(raw json.RawMessage) any {
+		var c struct {
+			G     int `json:"g"`
+			Fails int `json:"fails"`
+		}
+		if err := json.Unmarshal(raw, &c); err != nil {
+			return map[string]any{"error": err.Error()}
+		}
+		timex.VerifSetNow(time.Hour)
+		defer timex.VerifClockOff()
+		round++
+		b := New(WithName(fmt.Sprintf("verif-conc-%d", round)))
+		gb := verifGoogle(b)
+		gb.proba = mathx.VerifNewProba(&verifSource{next: 1<<53 - 1})
+		for k := 0; k < c.Fails; k++ {
+			b.Do(func() error { return errVerifUnacceptable })
+		}
+		src := &verifGateSource{entered: make(chan struct{}), gate: make(chan struct{})}
+		gb.proba = mathx.VerifNewProba(src)
+		var letIn int64
+		var wg sync.WaitGroup
+		for i := 0; i < c.G; i++ {
+			wg.Add(1)
+			go func(i int) {
+				defer wg.Done()
+				if i%2 == 0 {
+					if p, err := b.Allow(); err == nil {
+						atomic.AddInt64(&letIn, 1)
+						p.Accept()
+					}
+				} else {
+					ran := false
+					b.Do(func() error { ran = true; return nil })
+					if ran {
+						atomic.AddInt64(&letIn, 1)
+					}
+				}
+			}(i)
+		}
+		together := 0
+		all := make(chan struct{})
+		go func() { wg.Wait(); close(all) }()
+		select {
+		case <-src.entered:
+			for spin := 0; spin < 4000; spin++ {
+				if together = verifInTrueOnProba(); together >= c.G {
+					break
+				}
+				time.Sleep(50 * time.Microsecond)
+			}
+		case <-all: // no draw at all: the ratio is not positive
+		}
+		close(src.gate)
+		<-all
+		return map[string]any{"let_in": letIn, "together": together}
 	})
 }
